@@ -114,6 +114,13 @@ def extra_cases(rng, tier):
         for on, of in rops.items():
             if ln == "list" and on in ("c + z", "c * z"):
                 continue                              # list + array / list * array are list operations when the list comes first
+            if on == "c % z":
+                # (mod jumps wherever c / z is an integer: fixed operands well away from that)
+                if ln not in ("python float", "numpy float64 scalar", "0-d array"):
+                    continue
+                add("reflected " + on, "left operand: " + ln, (lambda m, z, of=of, cval=cval: of(cval, z)),
+                    [onp.array([[0.7, 0.9, 1.1], [1.3, 0.6, 0.8]])], [0], False)
+                continue
             add("reflected " + on, "left operand: " + ln, (lambda m, z, of=of, cval=cval: of(cval, z)), [pz], [0], False)
     add("reflected @", "ndarray (2,2) @ z", (lambda m, z: onp.array([[1.0, 2.0], [0.5, -1.0]]) @ z), [pz], [0], False)
     add("reflected @", "list @ z", (lambda m, z: [[1.0, 2.0], [0.5, -1.0]] @ z), [pz], [0], False)
@@ -124,8 +131,8 @@ def extra_cases(rng, tier):
     add("builtin", "z ** 2 (int exponent)", (lambda m, z: z ** 2), [pz], [0], False)
     add("builtin", "z ** -1", (lambda m, z: z ** -1), [pz], [0], False)
     add("builtin", "z ** 0.5", (lambda m, z: z ** 0.5), [pz], [0], False)
-    add("builtin", "divmod-free floor: z - z % 1", (lambda m, z: z - z % 1.0 + z), [pz], [0], False)
-    add("builtin", "z // 1 * z", (lambda m, z: (z // 1.0) * z), [pz], [0], False)
+    add("builtin", "divmod-free floor: z - z % 1", (lambda m, z: z - z % 1.0 + z), [R.half_ints(rng, (2, 3))], [0], False)
+    add("builtin", "z // 1 * z", (lambda m, z: (z // 1.0) * z), [R.half_ints(rng, (2, 3))], [0], False)
     # ---- (0f) stacked (batched) matrices and 1-D right-hand sides in linalg ----
     def spd_stack(k, n):
         mats = []
